@@ -377,6 +377,7 @@ def correspondence(ctx, model_ok=True):
             cases.append(gen_case(ctx.rng, force_d1=(i % 5 == 0), thorough=not ctx.quick))
     gots, scheds = [], []
     out = {"failures": [], "broken": []}
+    out["all_cases"] = cases          # the driver runs the property oracle on these as well
     dist = {"num_cores": {}, "d": {"1": 0, ">1": 0}, "two_dimensional": 0, "delays": 0, "scrambled_workers": 0,
             "errors": {}, "stat": {}, "pool_runs": 0}
     keys = set()
